@@ -338,6 +338,8 @@ func kbAlphabet() []kbOp {
 		{kind: "exportobj", key: 5, p1: "pw"}, {kind: "exportobj", key: 5, p1: ""}, {kind: "exportobj", key: 6, p1: "bad"},
 		{kind: "exportimport", key: 5, p1: "pw", p2: "enc", p3: "enc"}, {kind: "exportimport", key: 5, p1: "pw", p2: "enc", p3: "bad"}, {kind: "exportimport", key: 5, p1: "bad", p2: "enc", p3: "enc"},
 		{kind: "exportimport", key: 6, p1: uniPass, p2: uniPass, p3: uniPass},
+		// the same wrong passphrase for opening and for the new armor
+		{kind: "exportimport", key: 5, p1: "bad", p2: "bad", p3: "bad"},
 		// passphrases that differ only by surrounding whitespace are different passphrases
 		{kind: "importobj", key: 6, p1: wsPass}, {kind: "sign", key: 6, p1: wsPass}, {kind: "sign", key: 6, p1: "pw"}, {kind: "sign", key: 5, p1: "pw\n"},
 	}
@@ -467,7 +469,11 @@ func (c *c19) runKbProgramFrom(mk func() (keys.Keybase, func()), ops []kbOp, pro
 		case "exportimport":
 			// export from kb1 under p2, import into kb2 decrypting with p3, storing under "pw2"
 			var armor string
-			armor, err = kb1.ExportPrivKeyEncryptedArmor(addr, o.p1, o.p2, "hint")
+			hint := "hint"
+			if o.p1 == o.p2 {
+				hint = "" // exports without a hint too
+			}
+			armor, err = kb1.ExportPrivKeyEncryptedArmor(addr, o.p1, o.p2, hint)
 			okExport := exists && cur == o.p1
 			if (err == nil) != okExport {
 				fail(fmt.Sprintf("export-armor|ok=%v-want=%v", err == nil, okExport), "step %d %s: export returned err=%v, model expects success=%v", step, o, err, okExport)
